@@ -80,7 +80,7 @@ def run(tier, seed):
             'shapes': ['exp_pos', 'exp_neg', 'twopoint', 'outlier', 'arith', 'bimodal', 'lognormal', 'normal',
                        'smallint', 'exp_pos', 'exp_neg']}
     if tier == 'quick':
-        nseq, variants, mult = 300, [('release', 1.0), ('dev', 0.3)], 1
+        nseq, variants, mult = 300, [('release', 1.0), ('dev', 0.3), ('std', 0.3)], 1
         enum = enumerated([-1.0, 0.25, 3.0], 2, 6)
     else:
         nseq, variants, mult = 15000, [('release', 1.0), ('dev', 0.15), ('std', 0.15)], 8
